@@ -9,7 +9,7 @@ marked (T) already fail `go test ./compile/... ./core/`; the others keep those t
   K15 frame.go moveLocalsToShared: a captured block parameter is stored in its shared cell only
       on the first call of the block                                                       -> caught
   K23 interp.go: a try in a frame between the block and its function catches the block return -> caught
-  K24 interp.go invokeClosure: locals of a closure block are not cleared on entry            -> see report
+  K24 interp.go invokeClosure: locals of a closure block are not cleared on entry            -> caught
   K1  (T) blocks.go: captured block parameter gets no shared slot (sharing decision wrong for a
       block parameter)                                                                     -> caught
   K2  (T) interp.go: captured block parameters not copied to the shared cell on closure entry -> caught
